@@ -1,5 +1,5 @@
 """C20 — malformed length fields from the network cannot crash or balloon the client."""
-import os, sys
+import os, sys, struct
 sys.path.insert(0, os.path.join(os.path.dirname(os.path.dirname(os.path.abspath(__file__))), "lib"))
 import codec
 
@@ -145,6 +145,19 @@ def run(ctx, variants=(("verif", "c04"), ("verif,unsafe", "c04u"))):
                 for tail in (b"", b"\x01\x02\x03"):
                     cases.append("%s %s %s" % (f[0], f[1], (bytes(b) + tail).hex()))
                     nly += 1
+            # … and INSIDE record sets: every enclosing length (frame, record-set size, batch length / message size) lies
+            #     consistently (each inside the one around it) and the field itself is huge; cut after the field
+            deep = [x for x in fields if x["kind"] in ("i32", "uv", "zv") and x["off"] >= 8 and len(x["encl"]) > 1]
+            if ctx.tier != "thorough":
+                deep = deep[:6]
+            for x in deep:
+                o = x["off"]
+                huge = {"i32": bytes.fromhex("60000000"), "uv": codec.enc_uv(0x60000000), "zv": codec.enc_zv(0x60000000)}[x["kind"]]
+                b = bytearray(raw[:o]) + huge + b"\x01\x02"
+                for lvl, e in enumerate(sorted(x["encl"])):
+                    b[e:e + 4] = struct.pack(">i", 0x7fffffff - lvl * 0x04000000)
+                cases.append("%s %s %s" % (f[0], f[1], bytes(b).hex()))
+                nly += 1
         ctx.coverage["lying_size_and_length_cases"] = ctx.coverage.get("lying_size_and_length_cases", 0) + nly
         # (b) extra: blind overwrites at random offsets
         gen, rc, err = ctx.run_driver(drv, ["-malgen"])
